@@ -3,65 +3,53 @@
 package verifsim
 
 import (
-	"syscall"
+	"runtime"
 	"time"
-	"unsafe"
 )
 
 // In the race-detector build the baton must not create a happens-before edge between tasks, or the detector would see
-// every pair of tasks as synchronised and report nothing. A channel (like every Go synchronisation primitive) creates
-// such an edge; a byte through a pipe, moved with raw system calls from code the detector does not instrument (this
-// package is compiled without -race instrumentation), does not. Verified by probe: two strictly alternating tasks that
-// increment a shared counter are reported as a race under this baton, and are not when the counter is under a mutex.
-type baton struct{ r, w int }
-
-func newBaton() *baton {
-	var fds [2]int
-	if err := syscall.Pipe2(fds[:], syscall.O_CLOEXEC); err != nil {
-		panic("pipe: " + err.Error())
-	}
-	return &baton{r: fds[0], w: fds[1]}
+// every pair of tasks as synchronised and report nothing. Every Go synchronisation primitive (channels, sync, sync/atomic)
+// creates such an edge. What does not: plain loads and stores from code the detector does not instrument - this package
+// is compiled without -race instrumentation (see vsim) - polled with runtime.Gosched in between. The race workers run
+// with GOMAXPROCS=1, so "polling" is a trip round the run queue (microseconds), and a store is seen by the next goroutine
+// that runs. (A first version passed a byte through a pipe with raw system calls: same invisibility, 250 us per step.)
+// Verified by probe: two strictly alternating tasks incrementing a shared counter are reported as a race under such a
+// baton and are not when the counter is under a mutex.
+type baton struct {
+	has    int32
+	val    int32
+	closed int32
 }
 
+func newBaton() *baton { return &baton{} }
+
 func (b *baton) send(x byte) {
-	buf := [1]byte{x}
-	for {
-		n, _, e := syscall.Syscall(syscall.SYS_WRITE, uintptr(b.w), uintptr(unsafe.Pointer(&buf[0])), 1)
-		if e == syscall.EINTR || (e == 0 && n == 0) {
-			continue
+	for b.has != 0 {
+		if b.closed != 0 {
+			select {}
 		}
-		if e != 0 {
-			panic("baton write: " + e.Error())
-		}
-		return
+		runtime.Gosched()
 	}
+	b.val = int32(x)
+	b.has = 1
 }
 
 func (b *baton) recv() byte {
-	var buf [1]byte
-	for {
-		n, _, e := syscall.Syscall(syscall.SYS_READ, uintptr(b.r), uintptr(unsafe.Pointer(&buf[0])), 1)
-		if e == syscall.EINTR {
-			continue
+	for b.has == 0 {
+		if b.closed != 0 {
+			select {} // the world was abandoned: park for good instead of spinning
 		}
-		if e != 0 {
-			panic("baton read: " + e.Error())
-		}
-		if n == 0 {
-			// write end closed: the world is gone; park forever
-			select {}
-		}
-		return buf[0]
+		runtime.Gosched()
 	}
+	x := byte(b.val)
+	b.has = 0
+	return x
 }
 
-// recvTimeout: the race build has no watchdog (a blocking read cannot time out without poll); lock waits of the package
-// under test are seams in this build as well, so the situation the watchdog exists for does not arise there.
+// recvTimeout: the race build has no watchdog; lock waits of the package under test are seams in this build as well, so
+// the situation the watchdog exists for does not arise there.
 func (b *baton) recvTimeout(time.Duration) (byte, bool) { return b.recv(), true }
 
-func (b *baton) close() {
-	syscall.Close(b.r)
-	syscall.Close(b.w)
-}
+func (b *baton) close() { b.closed = 1 }
 
 const raceMode = true
